@@ -130,7 +130,7 @@ func alphabetFor(t reflect.Type) []any {
 			time.Date(2024, 3, 1, 12, 0, 0, 500, time.FixedZone("", 5*3600+1800)),
 		}
 	case typBytes:
-		return []any{[]byte(nil), []byte{}, []byte{0}, all256(), bigBody(5000)}
+		return []any{[]byte(nil), []byte{}, []byte{0}, all256(), bigBody(5000), bigBody(100000)} // 100 000: larger than every I/O buffer on the path (bufio 4 KiB, Scanner 64 KiB)
 	case typHeader:
 		return []any{
 			http.Header(nil),
